@@ -28,7 +28,10 @@ RULE = ("operation scripts over 1-2 index groups (index channel + 0-2 int64 data
         "domain lies before existing data), 1-7 samples per write, commits, closes, time-range deletes with bounds on / "
         "between / outside samples or covering a whole earlier domain, clean reopen, synchronous GC (threshold 0 or "
         "0.2), file rollover through small caps, channel deletion and re-creation, plus a malformed share (overlapping "
-        "writer, duplicate create, inverted delete). Every sample value encodes (channel, stamp). EVERY prefix of the "
+        "writer, duplicate create, inverted delete); two targeted kinds: a lazily persisted writer whose LAST commit "
+        "before Close crosses the file-size cap (rollover, then Close must flush), and one DeleteChannels call over an "
+        "index channel and its data channels in every key order incl. index first. Every sample value encodes "
+        "(channel, stamp). EVERY prefix of the "
         "recorded mutation log is a crash image (quick: plus 3-9 torn lengths per write incl. record boundaries of the "
         "index; thorough: every byte). Each image is reopened with cesium.Open (public API reads over [0,MAX) and "
         "narrow reads [s,s+1) at probe stamps, then a follow-up write and the reads again) and with domain.Open per "
@@ -506,8 +509,96 @@ def to_coq(case, r):
 
 
 # --------------------------------------------------------------------------- generator
+def real_cap(cap):
+    return (10 * nominal(cap) + 4) // 8
+
+
+def gen_lazyroll(rng):
+    """a lazily persisted (or, as control, always-persisting) writer whose LAST commit before Close crosses the
+    file-size cap and rolls over to a new file; afterwards nothing, a reopen, or another writer"""
+    cap = rng.choice([60, 100, 140, 200])
+    idx, datas, base = GROUPS[0]
+    keys = [idx] + datas[:rng.choice([0, 1, 1, 2])]
+    ops = [{"op": "create", "key": idx, "index": 0}] + [{"op": "create", "key": d, "index": idx} for d in keys[1:]]
+    t = base + rng.choice([1, 10, 50])
+    wid = 0
+    # optionally an earlier, closed writer (so that the index already holds persisted domains)
+    if rng.random() < 0.5:
+        st = [t, t + 1]
+        ops += [{"op": "open", "w": wid, "keys": keys, "start": t, "mode": rng.choice(["always", "lazy"])},
+                {"op": "write", "w": wid, "stamps": st}, {"op": "close", "w": wid}]
+        wid += 1
+        t += 10
+        if rng.random() < 0.5:
+            ops.append({"op": "reopen"})
+    mode = rng.choice(["lazy", "lazy", "lazy", "always"])
+    ops.append({"op": "open", "w": wid, "keys": keys, "start": t, "mode": mode})
+    # file size at acquisition: the earlier writer's 16 bytes if the file is reused (it always is: 16 < nominal)
+    size = 16 if wid == 1 else 0
+    target = real_cap(cap)
+    s = t
+    while True:
+        room = (target - size + 7) // 8          # samples still needed to reach the real cap
+        n = rng.choice([1, 2, 3]) if room > 3 else room
+        n = max(1, min(n, room))
+        stamps = list(range(s, s + n))
+        s += n + rng.choice([0, 1, 3])
+        ops.append({"op": "write", "w": wid, "stamps": stamps})
+        size += 8 * n
+        if size >= target:
+            break
+    ops.append({"op": "close", "w": wid})
+    y = rng.random()
+    if y < 0.35:
+        ops.append({"op": "reopen"})
+    elif y < 0.6:
+        ops += [{"op": "open", "w": wid + 1, "keys": keys, "start": s + 20, "mode": rng.choice(["always", "lazy"])},
+                {"op": "write", "w": wid + 1, "stamps": [s + 20, s + 21]}]
+        if rng.random() < 0.5:
+            ops.append({"op": "close", "w": wid + 1})
+    return {"cap": cap, "thr": 1e-7, "ops": ops}
+
+
+def gen_delgroup(rng):
+    """one DeleteChannels call over an index channel and the data channels it indexes, in every key order
+    (index first, last, in the middle), optionally followed by re-creation"""
+    idx, datas, base = GROUPS[0]
+    keys = [idx] + datas[:rng.choice([1, 1, 2])]
+    ops = [{"op": "create", "key": idx, "index": 0}] + [{"op": "create", "key": d, "index": idx} for d in keys[1:]]
+    other = None
+    if rng.random() < 0.4:
+        other = GROUPS[1][0]
+        ops.append({"op": "create", "key": other, "index": 0})
+    t = base + 10
+    if rng.random() < 0.8:
+        ops += [{"op": "open", "w": 0, "keys": keys, "start": t, "mode": rng.choice(["always", "lazy", "manual"])},
+                {"op": "write", "w": 0, "stamps": [t, t + 1, t + 3]}]
+        if ops[-2]["mode"] == "manual":
+            ops.append({"op": "commit", "w": 0})
+        ops.append({"op": "close", "w": 0})
+    order = list(keys)
+    rng.shuffle(order)
+    if rng.random() < 0.5:
+        order = [idx] + [k for k in order if k != idx]      # the index channel first
+    if other is not None and rng.random() < 0.5:
+        order.insert(rng.randrange(0, len(order) + 1), other)
+    ops.append({"op": "delchan", "keys": order})
+    if rng.random() < 0.5:
+        ops.append({"op": "create", "key": idx, "index": 0})
+        ops.append({"op": "create", "key": keys[1], "index": idx})
+        ops += [{"op": "open", "w": 1, "keys": [idx, keys[1]], "start": t + 30, "mode": "always"},
+                {"op": "write", "w": 1, "stamps": [t + 30, t + 31]}, {"op": "close", "w": 1}]
+    elif rng.random() < 0.5:
+        ops.append({"op": "reopen"})
+    return {"cap": 1000000, "thr": 1e-7, "ops": ops}
+
+
 def gen_script(rng, kind):
     """returns a case dict (without id)"""
+    if kind == "lazyroll":
+        return gen_lazyroll(rng)
+    if kind == "delgroup":
+        return gen_delgroup(rng)
     cap = 1000000
     thr = 1e-7
     if kind == "rollover":
@@ -640,7 +731,9 @@ def gen_script(rng, kind):
                 else:
                     g["keys"] = [x for x in g["keys"] if x != k]
             else:
-                ops.append({"op": "delchan", "keys": list(g["keys"][1:]) + [g["keys"][0]]})
+                order = list(g["keys"])
+                rng.shuffle(order)
+                ops.append({"op": "delchan", "keys": order})
                 g["live"] = False
         elif x < 0.94 and allst:
             # malformed: overlapping writer, duplicate create, inverted delete
@@ -690,7 +783,8 @@ def finish(case, rng, tier):
     return case
 
 
-KINDS = ["plain", "plain", "delete", "delete", "gc", "gc", "rollover", "rollover", "chan"]
+KINDS = ["plain", "lazyroll", "delete", "delgroup", "gc", "rollover", "chan", "plain", "lazyroll", "delete", "delgroup",
+         "gc", "rollover"]
 
 
 def gen_cases(rng, tier, n):
